@@ -126,6 +126,20 @@ CHECKS = {
             "Trusted: the base configuration is tied to the independent reference by C01. A race needing a rare "
             "interleaving can be missed.",
             "DESIGN.md section 2, C08"),
+    "C09": ("exploration",
+            "Hypothesis-generated knot vectors / derivative orders / weights / geometries; oracle = exact rational integrals "
+            "of products of piecewise polynomials and Kronecker products of them; closed-form identities; calibrated error "
+            "bound for the low-rank assemblers",
+            "bsp_mixed_deriv_biform_1d(_asym), bsp_mass/stiffness_1d(_asym) (degrees 0-6, repeated knots, derivative orders up "
+            "to p, two spaces on a common mesh, finer quadrature grids, polynomial weights) are compared with exact rational "
+            "integrals; mass/stiffness in 2D/3D through the Kronecker path, the generic path with an identity geometry and "
+            "the string front-end must equal the Kronecker product of the exact 1D matrices; M symmetric positive "
+            "definite with 1^T M 1 = measure (also under affine and multilinear maps), K symmetric positive semidefinite "
+            "with exactly the constants in its kernel; inner_products / integrate / load_vector of polynomial data are "
+            "exact; mass_fast / stiffness_fast stay within 10*tol*max(1,max|A|) entrywise. Sampling, not proof.",
+            "Trusted: vp/ref/bspl.py pp_basis (exact rationals). Open known finding: ACA skip-count heuristic of the fast "
+            "assemblers (matched by its stop reason only).",
+            "DESIGN.md section 2, C09"),
     "C10": ("exploration",
             "Hypothesis-generated linear systems / index sets in arbitrary order / faces / boundary data + exhaustive "
             "enumeration of slice_indices on small shapes; oracle = dense algebraic definition and an independent "
